@@ -154,8 +154,12 @@ def c17(run):
                 "(M=4 quick, 5 thorough) plus seeded random sentences up to 40 tokens; (recover) all programs of <= K one-line statements "
                 "from 6 good and 9 broken forms (K=3 quick, 4 thorough). L1 verdict Derives /\\ StaticOk vs bcl.Parse/Interpret: error iff rejected, "
                 ">= 1 well-formed diagnostic on rejection, none on acceptance, no results on rejection, a diagnostic on the line of every broken later statement. "
-                "Non-trivial = at least 3 tokens; distinct by source text.")
+                "MC (MC_Gram): on all these token strings the L1 recogniser and the L2 compiler machine agree about acceptance. Non-trivial = at least 3 tokens; distinct by source text.")
     q = run.quick
+    # design level: on arbitrary token strings the L1 recogniser and the L2 compiler machine (with its panic-mode recovery) agree about
+    # acceptance, and the machine comes to an end on each
+    for sc, ml in (("all", 3), ("viable", 4 if q else 5), ("assign", 1), ("bindsel", 1), ("nest", 1)):
+        run.mc("MC_Gram", cfg(constants=dict(Scope=sc, MaxLen=ml), invariants=("SameVerdict",)), label="MC_Gram(%s)" % sc)
     run.gen_replay("Gen_Gram", gen_cfg(dict(Scope="all", MaxLen=3 if q else 4)), ["replay-gram"], "C17:all")
     run.gen_replay("Gen_Gram", gen_cfg(dict(Scope="viable", MaxLen=4 if q else 5)), ["replay-gram"], "C17:viable")
     run.gen_replay("Gen_Gram", gen_cfg(dict(Scope="viable", MaxLen=40)), ["replay-gram"], "C17:sim",
@@ -211,9 +215,12 @@ def c06(run):
                 "(damage) 4 base programs with every byte replaced by each of 16 bytes, deleted or doubled; (scale) 11 shape families at limit-1, limit, limit+1 of the operand stack, "
                 "block nesting, variable count and jump distance, and out-of-domain operands (negative / 2^20 repeat counts, every division by zero, integer extremes, Inf/NaN). "
                 "(programs) the bind and blocks families of C03/C04. Each input goes through Parse, Interpret, Unmarshal, ParseFile, InterpretFile, UnmarshalFile (4096-byte pages) and InterpretFile in 8-byte reads each followed by a zero-byte read, in a child process with a 10 s watchdog: a panic (recovered or process death) "
-                "or a hang is a violation. Non-trivial = >= 2 bytes / every scaled case; distinct by input.")
+                "or a hang is a violation. MC (MC_Total): on the byte-given inputs the composed L2 chain of the specification itself comes to an end (no stuck machine, no run out of fuel). Non-trivial = >= 2 bytes / every scaled case; distinct by input.")
     run.assumptions += ["bounded time is a 10 s watchdog per input, not a proof"]
     q = run.quick
+    # design level: the composed L2 chain (L1 lexer -> compiler machine -> VM machine) comes to an end on every such input
+    for sc, ml in (("bytes", 3 if q else 4), ("literals", 1), ("damage", 1)):
+        run.mc("MC_Total", cfg(constants=dict(Scope=sc, MaxLen=ml), invariants=("Ends",)), label="MC_Total(%s)" % sc)
     run.gen_replay("Gen_Total", cfg(constants=dict(Scope="bytes", MaxLen=3 if q else 4), invariants=("Emit",)), ["replay-total"], "C06:bytes")
     run.gen_replay("Gen_Total", cfg(constants=dict(Scope="literals", MaxLen=1), invariants=("Emit",)), ["replay-total"], "C06:literals")
     run.gen_replay("Gen_Total", cfg(constants=dict(Scope="damage", MaxLen=1), invariants=("Emit",)), ["replay-total"], "C06:damage")
